@@ -62,6 +62,9 @@ RULES = {
     "R22": "`a.difference(&b).copied().collect()` (hash_set::Difference, Copied: no specification within reach) redirected to the wrapper `w_id_set_difference(&a, &b)` whose body is exactly that expression",
     "R23": "`a.chain(b).collect()` into an HpoGroup (Iterator::chain is a provided method: no specification can be attached) written as `w_chain_collect_group(a, b)`, a wrapper whose body is exactly `first.chain(second).collect()` (the postfix chain becomes a prefix call; the filter closure in between stays verbatim)",
     "R24": "`iter.fold(HashSet::default(), |acc, element| &acc | element)` (Iterator::fold on an adapter: no specification can be attached) written as `w_union_all(iter)`, a wrapper whose body is exactly that fold (the postfix fold becomes a prefix call; the map closure in between stays verbatim)",
+    "R25": "`map.values().find(p)` (Iterator::find is a provided method: no specification can be attached) written as `w_find_value(&map, p)`, a wrapper whose body is exactly `m.values().find(f)`; its assumed contract is the std one restricted to what an unordered map allows: Some(x) => x is a stored value and p(x) returned true; None => p returned false on every stored value",
+    "R26": "`a == b` on two `&str` (core::str PartialEq: no specification within reach) written as `w_str_eq(a, b)`, a wrapper whose body is exactly `a == b`; assumed contract: true iff the two character sequences are equal",
+    "R27": "`a.contains(b)` on two `&str` (core::str Pattern machinery: no specification within reach) written as `w_str_contains(a, b)`, a wrapper whose body is exactly `a.contains(b)`; its value is the uninterpreted `str_contains_spec(a@, b@)` (nothing is assumed about substring search itself)",
     "R11": "`const X: T = e;` written in Verus's exec-const form `exec const X: T ensures .. { e }` (same initializer expression)",
 }
 
